@@ -84,7 +84,7 @@ def capture_start_server(**cfg_kw):
     finally:
         loop.close()
         shutil.rmtree(root, ignore_errors=True)
-        structlog.configure(wrapper_class=structlog.make_filtering_bound_logger(50))
+        __import__('harness.core', fromlist=['core']).configure_harness_logging()      # put the harness logging configuration back
     if len(loop.captured) != 1:
         raise RuntimeError(f"start_server called create_server {len(loop.captured)} times")
     return loop.captured[0]
